@@ -50,7 +50,7 @@ pub open spec fn caret_ok(c: Caret, k: int) -> bool {
 }
 pub open spec fn first_visible(b: Buffer) -> int {
     if b.is_terminal_buffer {
-        if b.size.height - b.terminal_state.size.height > 0 { b.size.height - b.terminal_state.size.height } else { 0 }
+        if i32_sat_sub(b.size.height, b.terminal_state.size.height) > 0 { i32_sat_sub(b.size.height, b.terminal_state.size.height) as int } else { 0 }
     } else { 0 }
 }
 // C09: the cursor lies inside the visible screen
@@ -107,4 +107,72 @@ pub proof fn axiom_position_into_self()
         into_ok::<Position>(),
         forall|p: Position| #[trigger] pos_of::<Position>(p) == p,
 {
+}
+pub open spec fn first_editable(b: Buffer) -> int {
+    if b.is_terminal_buffer && b.terminal_state.margins_top_bottom.is_some() {
+        first_visible(b) + b.terminal_state.margins_top_bottom.unwrap().0
+    } else { first_visible(b) }
+}
+pub open spec fn last_editable(b: Buffer) -> int {
+    if b.is_terminal_buffer {
+        if b.terminal_state.margins_top_bottom.is_some() { first_visible(b) + b.terminal_state.margins_top_bottom.unwrap().1 }
+        else { first_visible(b) + b.size.height - 1 }
+    } else {
+        if b.layers[0].lines.len() as i32 >= b.size.height - 1 { b.layers[0].lines.len() as int } else { b.size.height - 1 }
+    }
+}
+pub open spec fn first_editable_col(b: Buffer) -> int {
+    if b.is_terminal_buffer && b.terminal_state.margins_left_right.is_some() { b.terminal_state.margins_left_right.unwrap().0 as int } else { 0 }
+}
+pub open spec fn last_editable_col(b: Buffer) -> int {
+    if b.is_terminal_buffer && b.terminal_state.margins_left_right.is_some() { b.terminal_state.margins_left_right.unwrap().1 as int }
+    else { i32_sat_sub(b.size.width, 1) as int }
+}
+// everything of a caret except its position
+pub open spec fn caret_frame(a: Caret, b: Caret) -> bool {
+    a.attribute == b.attribute && a.insert_mode == b.insert_mode && a.is_visible == b.is_visible
+        && a.is_blinking == b.is_blinking && a.ice_mode == b.ice_mode
+}
+// C09 needs the stronger margin shape: inside the screen
+pub open spec fn margins_view_ok(ts: TerminalState) -> bool {
+    &&& (ts.margins_top_bottom matches Some(m) ==> 0 <= m.0 <= m.1 < ts.size.height)
+    &&& (ts.margins_left_right matches Some(m) ==> 0 <= m.0 <= m.1 < ts.size.width)
+}
+pub open spec fn size_of_arg<S: Into<Size>>(p: S) -> Size {
+    <S as vstd::std_specs::convert::IntoSpec<Size>>::into_spec(p)
+}
+pub open spec fn size_into_ok<S: Into<Size>>() -> bool {
+    <S as vstd::std_specs::convert::IntoSpec<Size>>::obeys_into_spec()
+}
+#[verifier::external_body]
+pub proof fn axiom_size_into_self()     // S6 (ASSUMED): impl<T> From<T> for T is the identity
+    ensures
+        size_into_ok::<Size>(),
+        forall|p: Size| #[trigger] size_of_arg::<Size>(p) == p,
+{
+}
+// frames of a Buffer: which fields an operation may change
+pub open spec fn buf_frame_common(a: Buffer, b: Buffer) -> bool {
+    &&& a.buffer_type == b.buffer_type && a.ice_mode == b.ice_mode && a.palette_mode == b.palette_mode && a.font_mode == b.font_mode
+    &&& a.is_terminal_buffer == b.is_terminal_buffer
+    &&& a.overlay_layer_index == b.overlay_layer_index && a.overlay_layer == b.overlay_layer
+    &&& a.is_font_table_dirty == b.is_font_table_dirty
+}
+pub open spec fn buf_frame_ts(a: Buffer, b: Buffer) -> bool {      // only terminal_state changes
+    buf_frame_common(a, b) && a.size == b.size && a.layers == b.layers && a.sauce_data == b.sauce_data
+}
+pub open spec fn buf_frame_size(a: Buffer, b: Buffer) -> bool {    // only size (and its SAUCE mirror) changes
+    buf_frame_common(a, b) && a.terminal_state == b.terminal_state && a.layers == b.layers
+}
+pub open spec fn buf_frame_threads(a: Buffer, b: Buffer) -> bool { // only sixel_threads changes
+    buf_frame_common(a, b) && a.size == b.size && a.terminal_state == b.terminal_state && a.layers == b.layers && a.sauce_data == b.sauce_data
+}
+// an operation that rewrites cells only: every size, every flag, the terminal state and the number of layers
+// are unchanged, and no layer grows beyond any bound it satisfied before
+pub open spec fn buf_same_shape(a: Buffer, b: Buffer) -> bool {
+    &&& buf_frame_common(a, b)
+    &&& a.size == b.size && a.terminal_state == b.terminal_state && a.sauce_data == b.sauce_data
+    &&& a.layers@.len() == b.layers@.len()
+    &&& forall|i: int| 0 <= i < a.layers@.len() ==> layer_frame(#[trigger] a.layers@[i], b.layers@[i])
+    &&& forall|i: int, k: int| 0 <= i < a.layers@.len() && layer_ok(a.layers@[i], k) && k >= 0x10_0001 && a.size.width <= k ==> #[trigger] layer_ok(b.layers@[i], k)
 }
